@@ -7,6 +7,7 @@ from .. import paths
 from ..core import FUNC, call_attr, calls_in, const, dotted, is_const, kwarg, norm, slice_parts, text, walk_local
 
 EXPLANATION = [
+    'C14.scalar-range: any guard the built-in back end puts on a private scalar (from_private_key_bytes) accepts the whole range [1, n-1] (range(a, b) needs a <= 1 and b >= n; comparisons with n must not refuse n - 1), so both back ends derive a key for every valid scalar.',
     'C14.reject-then-leave: when the SMP session rejects a peer value (e.g. a public key that is not on the curve) it stops: no key is derived and nothing more is sent on that path (same rule as C13.fail-then-leave).',
     'C14.scalar-mult: the built-in double-and-add loop runs until the scalar is exhausted (or for at least bit_length(group order) iterations) and its body is one conditional add on the low bit, one doubling, one one-bit shift.',
     'C14.curve: the P-256 parameters in the built-in back end equal the NIST values and the generator satisfies the curve equation.',
@@ -298,6 +299,56 @@ def cmac_subkeys(ctx):
         R.check('int.from_bytes(bs, ' in norm(sb) or '<< 1' in norm(sb), rule, f'{B}._shift_bytes', 'shifts left by one bit', 'shift helper changed', p.loc(sb))
 
 
+def scalar_range(ctx):
+    """Neither back end refuses a private scalar of [1, n-1]: a range guard on the scalar in the built-in back end (the
+    library validates it itself) must accept every value from 1 up to and including n - 1."""
+    from ..sym import lin
+    R, p = ctx.r, ctx.p
+    rule = 'C14.scalar-range'
+    fn = p.find(f'{B}.EccKey.from_private_key_bytes')
+    if fn is None:
+        R.bad(rule, f'{B}.EccKey.from_private_key_bytes', 'anchor missing')
+        return
+    guards = [n for n in walk_local(fn) if isinstance(n, ast.If) and any(isinstance(x, ast.Raise) for x in n.body)]
+    bad = []
+
+    def n_minus(e):
+        """e as (coefficient of the curve order, constant) when it is `k*n + c`."""
+        f = lin(e)
+        if f is None:
+            return None
+        ns = [k for k in f if k and (k.endswith('.n') or k == 'n')]
+        others = [k for k in f if k and k not in ns and f[k]]
+        if others or len(ns) > 1:
+            return None
+        return (f.get(ns[0], 0) if ns else 0, f.get('', 0))
+    for g in guards:
+        t = g.test
+        # `d not in range(a, b)` -> accepted a..b-1 ; `d < a or d > b` / `not (a <= d <= b)` forms are read through their text
+        if isinstance(t, ast.Compare) and len(t.ops) == 1 and isinstance(t.ops[0], ast.NotIn) and isinstance(t.comparators[0], ast.Call) and dotted(t.comparators[0].func) == 'range' and len(t.comparators[0].args) == 2:
+            lo, hi = n_minus(t.comparators[0].args[0]), n_minus(t.comparators[0].args[1])
+            ok = lo is not None and hi is not None and lo[0] == 0 and lo[1] <= 1 and hi[0] == 1 and hi[1] >= 0
+            if not ok:
+                bad.append(f'`{norm(t)}` accepts {norm(t.comparators[0].args[0])} .. ({norm(t.comparators[0].args[1])}) - 1')
+        elif any('.n' in norm(x) or norm(x) == 'n' for x in ast.walk(t) if isinstance(x, (ast.Attribute, ast.Name))):
+            # comparisons with the order: d >= n / d > n - 1 are the only refusals that keep n - 1
+            for c in [x for x in ast.walk(t) if isinstance(x, ast.Compare) and len(x.ops) == 1]:
+                l_, r_ = n_minus(c.left), n_minus(c.comparators[0])
+                if l_ is None or r_ is None:
+                    continue
+                op = type(c.ops[0])
+                # normalise to  d  OP  k*n + c   with d on the left
+                if l_[0] and not r_[0]:
+                    l_, r_ = r_, l_
+                    op = {ast.Lt: ast.Gt, ast.Gt: ast.Lt, ast.LtE: ast.GtE, ast.GtE: ast.LtE}.get(op, op)
+                if r_[0] == 1:
+                    refuses_n_minus_1 = (op is ast.GtE and r_[1] <= -1) or (op is ast.Gt and r_[1] <= -2)
+                    if refuses_n_minus_1:
+                        bad.append(f'`{norm(c)}` refuses n - 1')
+    R.check(not bad, rule, f'{B}.EccKey.from_private_key_bytes', f'{len(guards)} range guard(s) on the scalar, none of which refuses a value of [1, n-1]',
+            f'the built-in back end refuses a valid private scalar ({bad[:2]}): for d = n - 1 the library back end derives a public key and the built-in one raises', p.loc(fn))
+
+
 def api_parity(ctx):
     R, p = ctx.r, ctx.p
     rule = 'C14.api-parity'
@@ -440,6 +491,7 @@ def reject_then_leave(ctx):
 
 
 RULES = [
+    ('C14.scalar-range', scalar_range),
     ('C14.reject-then-leave', reject_then_leave),
     ('C14.scalar-mult', scalar_mult),
     ('C14.curve', curve),
